@@ -60,6 +60,8 @@ def success_case(draw):
         # several complete peptides under ONE chain id without TER records (hidden chain ends)
         if desc["chains"][0]["start"] > 9000:
             desc["chains"][0]["start"] = 1
+        for ch_ in desc["chains"]:
+            ch_.pop("altmod", None)  # a hidden chain end is recognised by an atom NAMED OXT
         for prev, nxt in zip(desc["chains"], desc["chains"][1:]):
             prev["oxt"], prev["ter"] = True, False
             nxt["id"] = prev["id"]
